@@ -1,4 +1,6 @@
 import Refine.Lemmas.SmoothInterpBetween
+import Refine.Lemmas.SmoothInterpEx
+import Refine.Props.C05
 
 /-!
   C05 (smoothers and split insertion) — "after adaptation every vertex carries the metric obtained by log-Euclidean
@@ -333,5 +335,85 @@ theorem history_carries_field {cfg : Cfg} (hl : Live cfg) {bg : Bg P B M} {D : P
     (hok : ∀ op ∈ ops, OpOk D op) (hrun : runOps cfg bg G ops = some G') :
     ∀ n, opsDom A ops n → (G' n).met = field (G' n).xyz :=
   fun n hn => fresh_carries_field field hexact (G' n) (history_fresh hl hs ht ops A G G' hG hok hrun n hn)
+
+/-! ### the property's own sentence for a log-linear background (ties the bookkeeping to `Props/C05.lean`) -/
+
+open Refine Refine.Model.Matrix Refine.Model.Metric in
+open Refine.Model.Geom (V3 B4) in
+/-- a tetrahedral background whose vertex logs are an affine function of position: the kernel `Bg.interp` is
+    `ref_metric_interpolate_node`'s (`Model/Metric.interpolateNode`) on the four vertex logs of the donor cell -/
+noncomputable def loglinInterp (verts : Int → V3 ℝ × V3 ℝ × V3 ℝ × V3 ℝ) (L0 Lx Ly Lz : M6 ℝ) (c : Int) (b : B4 ℝ) :
+    Option (M6 ℝ × M6 ℝ) :=
+  match interpolateNode 4 b (affM L0 Lx Ly Lz (verts c).1) (affM L0 Lx Ly Lz (verts c).2.1)
+      (affM L0 Lx Ly Lz (verts c).2.2.1) (affM L0 Lx Ly Lz (verts c).2.2.2) with
+  | .ok p => some p
+  | .error _ => none
+
+open Refine Refine.Model.Matrix in
+open Refine.Model.Geom (V3 B4) in
+/-- `b` are barycentric coordinates of `x` in cell `c`: non-negative, sum one, reproduce the point -/
+def BaryDonor (verts : Int → V3 ℝ × V3 ℝ × V3 ℝ × V3 ℝ) (x : V3 ℝ) (c : Int) (b : B4 ℝ) : Prop :=
+  0 ≤ b.b0 ∧ 0 ≤ b.b1 ∧ 0 ≤ b.b2 ∧ 0 ≤ b.b3 ∧ b.b0 + b.b1 + b.b2 + b.b3 = 1 ∧
+  b.b0 * (verts c).1.x + b.b1 * (verts c).2.1.x + b.b2 * (verts c).2.2.1.x + b.b3 * (verts c).2.2.2.x = x.x ∧
+  b.b0 * (verts c).1.y + b.b1 * (verts c).2.1.y + b.b2 * (verts c).2.2.1.y + b.b3 * (verts c).2.2.2.y = x.y ∧
+  b.b0 * (verts c).1.z + b.b1 * (verts c).2.1.z + b.b2 * (verts c).2.2.1.z + b.b3 * (verts c).2.2.2.z = x.z
+
+open Refine Refine.Model.Matrix Refine.Model.Metric in
+open Refine.Model.Geom (V3 B4) in
+/-- **metric(v) = exp(L(x_v))**: on a log-linear tetrahedral background a vertex with a fresh record stores exactly
+    `L(x_v)` as its log metric and `exp_m(L(x_v))` as its metric (exact arithmetic) — the statement the stream
+    oracles evaluate on the implementation's output -/
+theorem fresh_loglinear (verts : Int → V3 ℝ × V3 ℝ × V3 ℝ × V3 ℝ) (L0 Lx Ly Lz : M6 ℝ)
+    (bg : Bg (V3 ℝ) (B4 ℝ) (M6 ℝ × M6 ℝ)) (hbg : bg.interp = loglinInterp verts L0 Lx Ly Lz)
+    (s : NodeSt (V3 ℝ) (B4 ℝ) (M6 ℝ × M6 ℝ)) (h : Fresh bg (BaryDonor verts) s) :
+    s.met.2 = affM L0 Lx Ly Lz s.xyz ∧ expM (affM L0 Lx Ly Lz s.xyz) = .ok s.met.1 := by
+  obtain ⟨_, _, ⟨h0, h1, h2, h3, hsum, hx, hy, hz⟩, hi⟩ := h
+  rw [hbg] at hi
+  unfold loglinInterp interpolateNode at hi
+  rw [C11.clipBary4_id h0 h1 h2 h3 hsum] at hi
+  simp only at hi
+  rw [C05.logCombine_loglinear s.bary L0 Lx Ly Lz _ _ _ _ s.xyz hsum hx hy hz] at hi
+  cases hn : nodeMetricSetLog (affM L0 Lx Ly Lz s.xyz) with
+  | error e => rw [hn] at hi; cases hi
+  | ok p =>
+    rw [hn] at hi
+    simp only [Option.some.injEq] at hi
+    subst hi
+    exact C05.nodeMetricSetLog_pair _ s.met hn
+
+/-! ### non-vacuity -/
+
+open Refine.Lemmas.SmoothInterp.Ex in
+/-- the hypotheses of `improve_metricAtPosition` are met by a concrete background and vertex, with a try sequence
+    [not-found, located-and-rejected, located-and-accepted] -/
+example : Live live ∧ Sound bg D ∧ Total bg D ∧ Fresh bg D s0 ∧
+    (improve .tri live bg guards cTries trial s0).outcome = .accepted 2 ∧
+    (improve .tri live bg guards cTries trial s0).calls.map (·.1) = [.notFound, .ok, .ok] :=
+  ⟨live_live, sound, total, s0_fresh, by decide, by decide⟩
+
+open Refine.Lemmas.SmoothInterp.Ex in
+/-- ... and its conclusion, computed: position 3, donor cell 3, weights 21, metric 24 = interp(3, 21) -/
+example : (improve .tri live bg guards cTries trial s0).st = { xyz := 3, cell := 3, part := 0, bary := 21, met := 24 } ∧
+    Fresh bg D (improve .tri live bg guards cTries trial s0).st :=
+  ⟨rfl, (improve_metricAtPosition live_live sound total .tri guards cTries trial s0 s0_fresh (by decide)).1⟩
+
+open Refine.Lemmas.SmoothInterp.Ex in
+/-- the hazard is real in the model: the same call on the same vertex entered UNLOCATED accepts the same try and
+    keeps metric 16 (the fresh value at position 3 is 24) -/
+example : (improve .tri live bg guards cTries trial { s0 with cell := EMPTY }).outcome = .accepted 2 ∧
+    (improve .tri live bg guards cTries trial { s0 with cell := EMPTY }).st =
+      { xyz := 3, cell := EMPTY, part := 0, bary := 14, met := 16 } :=
+  ⟨by decide, rfl⟩
+
+open Refine.Lemmas.SmoothInterp.Ex in
+/-- split insertion: located by the walk from the first end node's donor; and, with both end nodes unlocated, by
+    the sequential fall-back, which records the local rank as the donor's part -/
+example : metricInterpolateBetween live bg (some (2, 0)) (some (5, 0)) { xyz := 4, cell := 7, part := 3, bary := 0, met := 99 } =
+      (.ok, { xyz := 4, cell := 4, part := 0, bary := 28, met := 32 }) ∧
+    metricInterpolateBetween live bg (some (EMPTY, 0)) none { xyz := 4, cell := 7, part := EMPTY, bary := 0, met := 99 } =
+      (.ok, { xyz := 4, cell := 4, part := 0, bary := 28, met := 32 }) ∧
+    metricInterpolateBetween live bg (some (2, 0)) none { xyz := 40, cell := 7, part := 3, bary := 0, met := 99 } =
+      (.ok, { xyz := 40, cell := EMPTY, part := 3, bary := 0, met := 99 }) :=
+  ⟨rfl, rfl, rfl⟩
 
 end Refine.Props.C05Smooth
